@@ -36,7 +36,7 @@ type C13Case struct {
 func init() {
 	Register(&Engine{
 		Name: "c13", Prop: "C13",
-		Rule: "case = (list of 1..6 trees on 3..9 taxa: rooted or not, multifurcating, with / without / partly with lengths, supports or inner names, names from " +
+		Rule: "case = (list of 1..6 trees on 3..13 taxa: rooted or not, multifurcating, with / without / partly with lengths, supports or inner names, names from " +
 			"[A-Za-z0-9_.] incl. a few purely numeric ones; a conversion chain of 1..3 hops over {Nexus, Nexus+translate, Tree.Nexus, PhyloXML}; chunk plan, " +
 			"bufio size, reader/consumer schedule; optionally one malformed tree at position j, blank lines, CRLF). Every hop is written by gotree's writer fed " +
 			"through a channel and read back by ReadMultiTrees (real goroutine, scheduled) and by ReadTreeReader from a simulated chunked stream. Oracle: the " +
@@ -56,13 +56,13 @@ func init() {
 func genC13(rt *rapid.T, tier string) any {
 	r := rapidRnd{rt}
 	c := &C13Case{Bad: -1}
-	ntax := rapid.IntRange(3, 9).Draw(rt, "ntax")
+	ntax := rapid.IntRange(3, 13).Draw(rt, "ntax")
 	var tx []string
 	numeric := rapid.IntRange(0, 9).Draw(rt, "numeric") == 0
 	for i := 0; i < ntax; i++ {
 		switch {
 		case numeric && i%2 == 0:
-			tx = append(tx, strconv.Itoa(i+rapid.IntRange(0, 3).Draw(rt, "numoff")*10))
+			tx = append(tx, strconv.Itoa(i+rapid.IntRange(0, 3).Draw(rt, "numoff")*100)) // unique: i < 100
 		default:
 			tx = append(tx, rapid.SampledFrom([]string{"t", "Tx_", "sp.", "A", "z9_"}).Draw(rt, "prefix")+strconv.Itoa(i))
 		}
